@@ -250,6 +250,8 @@ for _t, _bits in (("i8", 8), ("i16", 16), ("i32", 32), ("i64", 64)):
 TRANSPARENT = {
     "as_ref", "as_slice", "as_str", "as_bytes", "deref", "borrow", "clone", "to_vec", "to_owned", "into", "iter",
     "into_iter", "as_deref", "copied", "cloned", "as_mut", "to_string", "as_mut_slice", "into_contents", "contents",
+    # owned-representation changes that keep the contents: String <-> Box<str>, Vec<T> <-> Box<[T]>
+    "into_boxed_str", "into_boxed_slice", "into_string", "into_vec",
 }
 # transparent for *provenance*; to_string on a foreign error is handled by rules
 
@@ -1113,6 +1115,28 @@ class Interp:
         return ClosureV(n, fr)
 
     def ev_Block(self, n, fr):
+        if n.get("bid") is not None and not getattr(self, "_in_labeled", None) == id(n):
+            # a labeled block that is the target of `break 'label ..`: its value is the case split of the break values
+            # and of the value it falls through with
+            act = Act("<block>")
+            act.bid = n["bid"]
+            act.vals = []
+            self.ctx.append(("iter", act))
+            prev_ = getattr(self, "_in_labeled", None)
+            self._in_labeled = id(n)
+            try:
+                v = self.ev_Block(n, fr)
+            finally:
+                self._in_labeled = prev_
+                self.ctx.pop()
+            rest_ = Not(act.ret) if act.ret is not False else True
+            alts_ = list(act.vals)
+            tail_ty = (n.get("expr") or {}).get("ty")
+            if rest_ is not False and tail_ty != "!" and not (n.get("expr") is None and alts_ and all(core(x) is not UNIT for _, x in alts_)):
+                alts_.append((rest_, v))
+            if not alts_:
+                return v
+            return alts_[0][1] if len(alts_) == 1 else PhiV(alts_)
         for s in n["stmts"]:
             if s["k"] == "Let":
                 v = self.ev(s["init"], fr) if s.get("init") else Unknown("uninit")
@@ -1276,10 +1300,35 @@ class Interp:
                 return None
         return None
 
+    def _innermost_iter(self):
+        """innermost loop iteration (labeled blocks are `iter` entries with a block id: not loop iterations)"""
+        for i in range(len(self.ctx) - 1, -1, -1):
+            if self.ctx[i][0] == "iter" and getattr(self.ctx[i][1], "bid", None) is None:
+                return i
+            if self.ctx[i][0] == "act":
+                return None
+        return None
+
     def ev_Break(self, n, fr):
+        tgt = n.get("target")
+        if tgt is not None:
+            # `break 'label value` out of a labeled block: that block yields the value on these paths
+            for i in range(len(self.ctx) - 1, -1, -1):
+                e = self.ctx[i]
+                if e[0] == "act":
+                    break
+                if e[0] == "iter" and getattr(e[1], "bid", None) == tgt:
+                    val = self.ev(n["e"], fr) if n.get("e") else UNIT
+                    act = e[1]
+                    c = self.cur_cond(i + 1)
+                    c = And(c, Not(act.ret) if act.ret is not False else True)
+                    if c is not False:
+                        act.vals.append((c, val))
+                    act.ret = Or(act.ret, c)
+                    return UNIT
         if n.get("e"):
             self.ev(n["e"], fr)
-        i = self._innermost("iter")
+        i = self._innermost_iter()
         if i is not None:
             c = self.cur_cond(i + 1)
             it_act = self.ctx[i][1]
@@ -1292,7 +1341,7 @@ class Interp:
         return UNIT
 
     def ev_Continue(self, n, fr):
-        i = self._innermost("iter")
+        i = self._innermost_iter()
         if i is not None:
             c = self.cur_cond(i + 1)
             it_act = self.ctx[i][1]
